@@ -3,8 +3,7 @@
      args    : VL [VL [VZ kind; VB literal] ...]        kind 1 = STRING, 2 = BOOL ("true"/"false")
      request : see CondPrim.dec_request;  oracle : see CondPrim.dec_ext (results of the external library calls)
    output: VZ 0/1 = condition.Build(name(args)).Match(request); VErr 1 = Build returned an error *)
-From Coq Require Import List ZArith Bool String.
-Local Open Scope string_scope.
+From Coq Require Import List ZArith Bool.
 From Bfe Require Import lib.Val lib.Bytes model.CondParse model.CondPrim.
 Import ListNotations.
 Open Scope Z_scope.
@@ -56,16 +55,16 @@ Definition header_key_present (keys : bytes) (h : alist (list bytes)) : bool :=
   existsb (fun k => match aget (canon_key k) h with Some (_ :: _) => true | _ => false end) (split_bar keys).
 Definition kf2 (name : bytes) (args : list arg) (r : request) : bool :=
   let keys := arg_str (nth_arg args 0) in
-  if bytes_eqb name (bs "req_header_key_in") then header_key_present keys (r_headers r) && negb (header_key_in keys (r_headers r))
-  else if bytes_eqb name (bs "res_header_key_in") then
+  if bytes_eqb name ((* "req_header_key_in" *) [114;101;113;95;104;101;97;100;101;114;95;107;101;121;95;105;110]) then header_key_present keys (r_headers r) && negb (header_key_in keys (r_headers r))
+  else if bytes_eqb name ((* "res_header_key_in" *) [114;101;115;95;104;101;97;100;101;114;95;107;101;121;95;105;110]) then
     match r_resp r with Some (_, h) => header_key_present keys h && negb (header_key_in keys h) | None => false end
   else false.
 
 (* the documented verdict; for the two key_in primitives "present" means present (possibly with an empty value) *)
 Definition doc_match (x : ext) (name : bytes) (args : list arg) (r : request) : option bool :=
   let keys := arg_str (nth_arg args 0) in
-  if bytes_eqb name (bs "req_header_key_in") then Some (header_key_present keys (r_headers r))
-  else if bytes_eqb name (bs "res_header_key_in") then
+  if bytes_eqb name ((* "req_header_key_in" *) [114;101;113;95;104;101;97;100;101;114;95;107;101;121;95;105;110]) then Some (header_key_present keys (r_headers r))
+  else if bytes_eqb name ((* "res_header_key_in" *) [114;101;115;95;104;101;97;100;101;114;95;107;101;121;95;105;110]) then
     Some (match r_resp r with Some (_, h) => header_key_present keys h | None => false end)
   else spec_match x name args r.
 
